@@ -130,15 +130,19 @@ JointOf(net, labs) ==
 GSum(v) == SumG(LAMBDA k : v[k], 1, Len(v))
 AllLabels(net) == SetToSeqL(NetLabels(net))
 ZOf(net) == GSum(JointOf(net, AllLabels(net)))
-\* marginal over the labels at positions pos (a sequence) of labs: flat, C order over those labels
+\* marginal over the labels at positions pos (a sequence) of labs: flat, C order over those labels.
+\* Entry f of the result is the sum of the joint entries whose digits at pos are those of f: the joint
+\* offset splits into the part of the kept labels and the part of the summed ones.
 MargFromJoint(J, ds, pos) ==
-  LET sd == [k \in DOMAIN pos |-> ds[pos[k]]]
-      L  == Len(ds)
-      st == [k \in 1..L |-> ProdI(ds, k + 1, L)]
-      \* flat position, in the small table, of entry n of the joint table
-      fl == [n \in 1..Len(J) |-> 1 + SumI(LAMBDA k : (((n - 1) \div st[pos[k]]) % ds[pos[k]]) * ProdI(sd, k + 1, Len(sd)),
-                                             1, Len(pos))]
-  IN  [f \in 1..Size(sd) |-> SumG(LAMBDA n : IF fl[n] = f THEN J[n] ELSE GZero, 1, Len(J))]
+  LET L    == Len(ds)
+      kept == {pos[k] : k \in DOMAIN pos}
+      rest == SelectSeq([k \in 1..L |-> k], LAMBDA k : k \notin kept)
+      st   == [k \in 1..L |-> ProdI(ds, k + 1, L)]
+      sd   == [k \in DOMAIN pos  |-> ds[pos[k]]]
+      rd   == [k \in DOMAIN rest |-> ds[rest[k]]]
+      offF == [f \in 1..Size(sd) |-> SumI(LAMBDA k : Digit(f - 1, sd, k) * st[pos[k]], 1, Len(pos))]
+      offR == [r \in 1..Size(rd) |-> SumI(LAMBDA k : Digit(r - 1, rd, k) * st[rest[k]], 1, Len(rest))]
+  IN  [f \in 1..Size(sd) |-> SumG(LAMBDA r : J[1 + offF[f] + offR[r]], 1, Size(rd))]
 \* unnormalised marginal over the labels `out`
 MargOf(net, out) ==
   LET labs == AllLabels(net) IN
@@ -151,8 +155,9 @@ RedRat(n, d) == LET g == Gcd(Abs(n), Abs(d))
                     sg == IF d < 0 THEN -1 ELSE 1
                 IN  <<sg * (n \div g), sg * (d \div g)>>
 \* observed p[k] = <<num, den>> (a reduced real rational) equals v[k] / sum(v) for real Gaussian-integer v
-RatVecMatches(p, v) ==
-  LET s == GSum(v) IN
+\* (binding through singleton sets: TLC would otherwise re-evaluate the lazy argument at every use)
+RatVecMatches(p, v0) ==
+  \E v \in {v0} : \E s \in {GSum(v)} :
   /\ Len(p) = Len(v)
   /\ s[1] # 0 /\ s[2] = 0
   /\ \A k \in DOMAIN v : v[k][2] = 0 /\ <<p[k][1], p[k][2]>> = RedRat(v[k][1], s[1])
@@ -172,8 +177,8 @@ ProbMargFromAmp(a, ds, p) ==
   [v \in 1..ds[p] |-> SumI(LAMBDA n : IF (((n - 1) \div st) % ds[p]) = v - 1 THEN GAbs2(a[n]) ELSE 0, 1, Len(a))]
 ProbMargOf(net, out, p) == ProbMargFromAmp(AmpOf(net, out), DimsOf(net, out), p)
 \* p[k] = <<num, den>> equals w[k] / sum(w) for integer weights w
-RatVecMatchesI(p, w) ==
-  LET s == SumI(LAMBDA k : w[k], 1, Len(w)) IN
+RatVecMatchesI(p, w0) ==
+  \E w \in {w0} : \E s \in {SumI(LAMBDA k : w[k], 1, Len(w))} :
   /\ Len(p) = Len(w) /\ s # 0
   /\ \A k \in DOMAIN w : <<p[k][1], p[k][2]>> = RedRat(w[k], s)
 
